@@ -425,6 +425,11 @@ func (c *converter) syncIngressHTTP(source *annotations.Source, ing *networking.
 				}
 			} else if host.FindPathWithLink(pathLink) != nil {
 				c.logger.Warn("skipping redeclared path '%s' type '%s' on %v", uri, match, source)
+				// a refused declaration starts to be valid when the current owner of the path
+				// leaves, its backend should be tracked so it is also changed at that moment
+				if backend := c.findBackend(ing.Namespace, &path.Backend); backend != nil {
+					c.tracker.TrackNames(source.Type, source.FullName(), convtypes.ResourceHABackend, backend.ID)
+				}
 				continue
 			}
 			if redirectTo := annBack[ingtypes.BackRedirectTo]; redirectTo != "" {
